@@ -174,6 +174,9 @@ type Net struct {
 	GenDoc  *types.GenesisDoc
 	Nodes   map[int]*Node
 	Order   []int // correct node keys, ascending
+	// GossipMode: order of one idealised-gossip pass (see gossipOrder); "" = chronological
+	GossipMode string
+	StopHeight int64 // idealised gossip stops once every correct node has decided this height (0 = never)
 	Pool    []*Packet
 	Events  []string
 	Blocked map[[2]int]bool // (from,to) pairs currently cut
